@@ -30,6 +30,7 @@ from pynguin.utils.naming import get_module_alias
 from pynguin.utils.type_utils import (
     is_assertable,
     is_collection_type,
+    is_enum,
     is_ignorable_type,
     is_primitive_type,
 )
@@ -331,7 +332,7 @@ class RemoteAssertionTraceObserver(ex.RemoteExecutionObserver):
         if isinstance(value, float):
             trace.add_entry(position, ass.FloatAssertion(source, value))
             return
-        if is_assertable(value):
+        if is_assertable(value) and self._enums_are_referenceable(value):
             trace.add_entry(position, ass.ObjectAssertion(source, copy.deepcopy(value)))
             return
 
@@ -398,6 +399,48 @@ class RemoteAssertionTraceObserver(ex.RemoteExecutionObserver):
                     depth=depth + 1,
                     max_depth=max_depth,
                 )
+
+    @staticmethod
+    def _enums_are_referenceable(value: Any, depth: int = 0) -> bool:
+        """Check whether every enum member inside ``value`` can be named in the test file.
+
+        An ``ObjectAssertion`` on an enum member is rendered as ``EnumClass.MEMBER``.
+        The generated file only binds the module under test (under its alias) and that
+        module's public names, so the class must either be defined in the module under
+        test (outside of a function) or be one of its public attributes; enum classes
+        of other modules that the module under test does not expose cannot be named,
+        and the caller falls back to a type-name assertion.
+
+        Args:
+            value: An assertable value, possibly a (nested) collection.
+            depth: The current nesting depth.
+
+        Returns:
+            True, if all enum members in ``value`` can be referenced.
+        """
+        import sys  # noqa: PLC0415
+
+        if depth > 5:
+            return False
+        typ = type(value)
+        if is_enum(typ):
+            module_name = config.configuration.module_name
+            if typ.__module__ == module_name:
+                return "<locals>" not in typ.__qualname__
+            module = sys.modules.get(module_name)
+            name = typ.__name__
+            return not name.startswith("_") and getattr(module, name, None) is typ
+        if isinstance(value, dict):
+            return all(
+                RemoteAssertionTraceObserver._enums_are_referenceable(k, depth + 1)
+                and RemoteAssertionTraceObserver._enums_are_referenceable(v, depth + 1)
+                for k, v in value.items()
+            )
+        if isinstance(value, list | tuple | set | frozenset):
+            return all(
+                RemoteAssertionTraceObserver._enums_are_referenceable(v, depth + 1) for v in value
+            )
+        return True
 
     @staticmethod
     def _is_type_importable(typ: type) -> bool:
